@@ -7,10 +7,19 @@
    documentation does not fix it) / "skip" (the case is outside the property's domain and not compared)
    / "L:" followed by the expected listing for glob_array. *)
 EXTENDS Naturals, Sequences, TLC, FiniteSets
-Paths == {"a.txt", "d", "d/b.txt", "d/s p", "d/s p/c é.txt", "n.txt"}
-Parent == [p \in Paths |-> CASE p = "d/b.txt" -> "d" [] p = "d/s p" -> "d" [] p = "d/s p/c é.txt" -> "d/s p" [] OTHER -> ""]
-Base == [p \in Paths |-> CASE p = "d/b.txt" -> "b.txt" [] p = "d/s p" -> "s p" [] p = "d/s p/c é.txt" -> "c é.txt" [] OTHER -> p]
-FilePaths == {"a.txt", "d/b.txt", "d/s p/c é.txt", "n.txt"}       \* paths with an extension: used as files
+\* Universe 1: three levels, a space and a non-ASCII character in names.
+\* Universe 2: the targets of "move / copy into an existing directory" are inside the universe (d/a.txt, d/n.txt) and
+\*             one directory name carries a dot (v1.2: a directory, whatever its name looks like).
+CONSTANT Pool
+Paths == IF Pool = 1 THEN {"a.txt", "d", "d/b.txt", "d/s p", "d/s p/c é.txt", "n.txt"}
+         ELSE {"a.txt", "n.txt", "v1.2", "v1.2/a.txt", "d", "d/a.txt", "d/n.txt"}
+Parent == [p \in Paths |-> CASE p = "d/b.txt" -> "d" [] p = "d/s p" -> "d" [] p = "d/s p/c é.txt" -> "d/s p"
+                             [] p = "v1.2/a.txt" -> "v1.2" [] p = "d/a.txt" -> "d" [] p = "d/n.txt" -> "d" [] OTHER -> ""]
+Base == [p \in Paths |-> CASE p = "d/b.txt" -> "b.txt" [] p = "d/s p" -> "s p" [] p = "d/s p/c é.txt" -> "c é.txt"
+                           [] p = "v1.2/a.txt" -> "a.txt" [] p = "d/a.txt" -> "a.txt" [] p = "d/n.txt" -> "n.txt" [] OTHER -> p]
+\* paths used as files (never made a directory by the generated cases)
+FilePaths == IF Pool = 1 THEN {"a.txt", "d/b.txt", "d/s p/c é.txt", "n.txt"} ELSE {"a.txt", "n.txt", "v1.2/a.txt", "d/a.txt", "d/n.txt"}
+Sources == IF Pool = 1 THEN {"a.txt", "d/b.txt"} ELSE {"a.txt", "n.txt"}                 \* sources of cp / mv
 Contents == {"", "x"}
 Absent == [k |-> "absent", c |-> ""]
 Dir == [k |-> "dir", c |-> ""]
@@ -62,7 +71,8 @@ Eff(op, t) ==
          ELSE IF q = p THEN Ok(t, "true")
          ELSE IF t[q].k = "dir" THEN                                       \* into the existing directory
               (IF Into(q, p) = {} THEN Ok(t, "skip") ELSE LET x == CHOOSE y \in Into(q, p) : TRUE IN
-                 IF x = p THEN Ok(t, "skip") ELSE IF t[x].k = "dir" THEN Ok(t, "skip") ELSE Ok([t EXCEPT ![x] = t[p], ![p] = Absent], "true"))
+                 \* an entry of that name already inside the directory: the property does not say whether it is replaced (skip)
+                 IF x = p THEN Ok(t, "skip") ELSE IF t[x].k # "absent" THEN Ok(t, "skip") ELSE Ok([t EXCEPT ![x] = t[p], ![p] = Absent], "true"))
          ELSE IF t[q].k = "absent" /\ q \notin FilePaths THEN Ok(t, "skip")   \* a missing target without extension: the documentation's example makes a directory; the property does not cover it
          ELSE IF AncestorIsFile(t, q) THEN Fail(t)
          ELSE Ok([WithParents(t, q) EXCEPT ![q] = t[p], ![p] = Absent], "true")
@@ -70,5 +80,5 @@ Trees == { t \in [Paths -> {Absent, Dir} \cup {File(c) : c \in Contents}] : Cons
 Ops == { [cmd |-> c, a |-> <<p, "x">>] : c \in {"writefile", "appendfile", "write_binary"}, p \in Paths }
    \cup { [cmd |-> c, a |-> <<p>>] : c \in {"touch", "mkdir", "rm", "rmdir", "readfile", "read_binary", "is_path_exists", "is_file", "is_dir", "get_file_size", "ls", "basename", "dirname"}, p \in Paths }
    \cup { [cmd |-> "rm", a |-> <<"-r", p>>] : p \in Paths }
-   \cup { [cmd |-> c, a |-> <<p, q>>] : c \in {"cp", "mv"}, p \in {"a.txt", "d/b.txt"}, q \in Paths }
+   \cup { [cmd |-> c, a |-> <<p, q>>] : c \in {"cp", "mv"}, p \in Sources, q \in Paths }
 =============================================================================
